@@ -14,7 +14,7 @@ import (
 func init() {
 	register(&Prop{
 		ID:          "C11",
-		Decided:     "(1) termination: every loop of the lexer and of the token-level parser reachable from rsql.Parse is a range loop, or is bounded by a counter compared on an exit edge, or consumes input on every cycle (reaches Lexer.readChar) and is left once every token is EOF / the current byte is 0; every recursive cycle among the parser functions carries a depth counter compared with a constant (or is the one reviewed helper whose depth is bounded by what it recurses on); (2) no panic(...) call and no single-value type assertion is reachable from rsql.Parse inside the module; (3) clause completeness: every field of SelectStatement and WindowDefinition that a parser function stores to is read by ToStreamConfig or a function it calls; (4) every token type a clause parser tests for can be produced by the lexer; (5) keywords are matched case-insensitively: lookupIdent switches on a case-folded copy of the identifier, and every lookup in a table of upper-case keywords anywhere in package rsql is done on a case-folded word (folded in the function or by every caller) and the whitespace skipper covers space, tab, newline and carriage return. Also: no field of an element appended by a list-parsing loop carries a value over from the previous list item (per-item state is initialised per iteration). Also: iteration caps of clause loops grow with the length of the statement (a constant cap silently drops long clauses because the error is recoverable); clause-text loops compare with every later clause keyword. Also: the default 'no alias -> table name' of a JOIN is applied before the ON clause uses the alias (flow/alias-default-before-use, shared with C16).",
+		Decided:     "(1) termination: every loop of the lexer and of the token-level parser reachable from rsql.Parse is a range loop, or is bounded by a counter compared on an exit edge, or consumes input on every cycle (reaches Lexer.readChar) and is left once every token is EOF / the current byte is 0; every recursive cycle among the parser functions carries a depth counter compared with a constant (or is the one reviewed helper whose depth is bounded by what it recurses on); (2) no panic(...) call and no single-value type assertion is reachable from rsql.Parse inside the module; (3) clause completeness: every field of SelectStatement and WindowDefinition that a parser function stores to is read by ToStreamConfig or a function it calls; (4) every token type a clause parser tests for can be produced by the lexer; (5) keywords are matched case-insensitively: lookupIdent switches on a case-folded copy of the identifier, and every lookup in a table of upper-case keywords anywhere in package rsql is done on a case-folded word (folded in the function or by every caller) and the whitespace skipper covers space, tab, newline and carriage return. Also: no field of an element appended by a list-parsing loop carries a value over from the previous list item (per-item state is initialised per iteration). Also: iteration caps of clause loops grow with the length of the statement (a constant cap silently drops long clauses because the error is recoverable); clause-text loops compare with every later clause keyword. Also: the default 'no alias -> table name' of a JOIN is applied before the ON clause uses the alias (flow/alias-default-before-use, shared with C16). Also: in the clause parsers every non-error way out of a function after a token was written into the item's strings.Builder passes a read of the accumulated text (flow/accumulated-text-consumed): the last item of a clause cannot be dropped by an early return.",
 		NotDecided:  "that the configuration faithfully reflects clause text (token re-joining with heuristic spacing), keyword-like text inside literals, equality of results across layouts, termination of index-scanning string helpers outside Lexer/Parser (listed in the evidence under parser_loops_not_decided), index safety of slicing in general (the compiler's unproven bounds checks are not enumerated in the quick tier).",
 		Assumptions: []string{"at end of input Lexer.NextToken returns TokenEOF with an empty Value forever and Lexer.ch is 0 (read in NextToken/readChar)", "tokens obtained before a loop and compared inside it are also taken as EOF in the steady state"},
 		Run:         runC11,
@@ -159,6 +159,7 @@ func runC11(a *A) {
 	a.Rule("flow/no-state-between-list-items", 12, func() { a.ruleNoStateBetweenListItems("rsql") })
 	a.Rule("tables/clause-terminators", 12, func() { a.ruleClauseTerminators() })
 	a.Rule("term/caps-scale-with-input", 7, func() { a.ruleCapsScaleWithInput() })
+	a.Rule("flow/accumulated-text-consumed", 6, func() { a.ruleAccumulatedTextConsumed() })
 	a.Rule("flow/alias-default-before-use", 1, func() { a.ruleAliasDefaultBeforeUse() })
 	a.Rule("shape/layout-and-case", 2, func() {
 		li := a.Method("rsql", "Lexer", "lookupIdent")
@@ -681,4 +682,115 @@ func (a *A) ruleCapsScaleWithInput() int {
 // capReviewed: constant caps that are documented limits rather than loop guards.
 var capReviewed = map[string]string{
 	"(*rsql.Parser).parseSelect": "MaxSelectFields (300) is the documented limit on the number of SELECT items, counted per item, not per token",
+}
+
+// ruleAccumulatedTextConsumed: the clause parsers accumulate the tokens of the item in hand in a
+// strings.Builder and hand the text over (append to the statement) when the item ends. Every way out
+// of the function after a token was written into the builder must pass a read of the builder
+// (String(), directly or in a local closure such as flushItem): an early return that skips it silently
+// drops the last item of the clause (`GROUP BY CountingWindow(2), device, kind LIMIT 100` loses kind).
+func (a *A) ruleAccumulatedTextConsumed() int {
+	n := 0
+	isBuilderMethod := func(cc *ssa.CallCommon, names ...string) bool {
+		sc := cc.StaticCallee()
+		if sc == nil || sc.Signature.Recv() == nil || !isNamedType(sc.Signature.Recv().Type(), "strings", "Builder") {
+			return false
+		}
+		for _, nm := range names {
+			if sc.Name() == nm {
+				return true
+			}
+		}
+		return false
+	}
+	for _, fn := range a.ModFuncs {
+		if fn.Pkg != a.Pkg("rsql") || fn.Blocks == nil || fn.Parent() != nil {
+			continue
+		}
+		if r := fn.Signature.Recv(); r == nil || !isNamedType(r.Type(), modPath+"/rsql", "Parser") {
+			continue
+		}
+		allInstrs(fn, func(in ssa.Instruction) {
+			al, ok := in.(*ssa.Alloc)
+			if !ok || !isNamedType(al.Type(), "strings", "Builder") {
+				return
+			}
+			// closures that read the builder (through a captured variable bound to this alloc)
+			readers := map[*ssa.Function]bool{}
+			for _, anon := range fn.AnonFuncs {
+				for i, fv := range anon.FreeVars {
+					_ = i
+					reads := false
+					allInstrs(anon, func(x ssa.Instruction) {
+						if cc := callCommon(x); cc != nil && isBuilderMethod(cc, "String") && len(cc.Args) > 0 && cc.Args[0] == ssa.Value(fv) {
+							reads = true
+						}
+					})
+					if reads {
+						// is this free variable bound to al?
+						allInstrs(fn, func(x ssa.Instruction) {
+							if mc, ok := x.(*ssa.MakeClosure); ok && mc.Fn == ssa.Value(anon) {
+								for j, b := range mc.Bindings {
+									if b == ssa.Value(al) && anon.FreeVars[j] == fv {
+										readers[anon] = true
+									}
+								}
+							}
+						})
+					}
+				}
+			}
+			isRead := func(x ssa.Instruction) bool {
+				cc := callCommon(x)
+				if cc == nil {
+					return false
+				}
+				if isBuilderMethod(cc, "String") && len(cc.Args) > 0 && cc.Args[0] == ssa.Value(al) {
+					return true
+				}
+				for _, l := range phiLeaves(cc.Value) {
+					if mc, ok := l.(*ssa.MakeClosure); ok {
+						if f, ok := mc.Fn.(*ssa.Function); ok && readers[f] {
+							return true
+						}
+					}
+				}
+				return false
+			}
+			hasRead := false
+			allInstrs(fn, func(x ssa.Instruction) {
+				if isRead(x) {
+					hasRead = true
+				}
+			})
+			if !hasRead {
+				return // a builder that is returned or consumed elsewhere: not this idiom
+			}
+			allInstrs(fn, func(x ssa.Instruction) {
+				cc := callCommon(x)
+				if cc == nil || !isBuilderMethod(cc, "WriteString", "WriteByte", "WriteRune") || len(cc.Args) == 0 || cc.Args[0] != ssa.Value(al) {
+					return
+				}
+				n++
+				bad := pathToExitAvoiding(x, func(y ssa.Instruction) bool {
+					if isRead(y) {
+						return true
+					}
+					// an error return discards the statement: not a silent loss
+					if r, ok := y.(*ssa.Return); ok && returnsNonNilError(r) {
+						return true
+					}
+					return false
+				}, false)
+				pos := x.Pos()
+				if bad != nil {
+					pos = bad.Pos()
+				}
+				a.Check(bad == nil, fmt.Sprintf("%s#%s-consumed", fname(fn), al.Comment), pos,
+					"every way out after a token was accumulated passes a read of the accumulated text",
+					"the function can return (without an error) after a token was written into "+al.Comment+" and before the accumulated text is read: the last item of the clause is silently dropped")
+			})
+		})
+	}
+	return n
 }
